@@ -839,18 +839,19 @@ func evalUnary(unar *Unary, obj interface{}) (v interface{}, newObj interface{},
 		if err != nil || collapse {
 			return
 		}
-		switch vx := v.(type) {
-		case bool:
-			if unar.Op == "!" {
-				v = !vx
+		switch unar.Op {
+		case "!":
+			switch v.(type) {
+			case bool, string, int64, float64, nil, []interface{}, map[string]interface{}:
+				// `!` negates the truthiness of its operand
+				v = !boolOperand(v)
 			}
-		case float64:
-			if unar.Op == "-" {
+		case "-":
+			switch vx := v.(type) {
+			case float64:
 				v = -vx
-			}
-		case int64:
-			// Integers of the record are int64, literals are float64
-			if unar.Op == "-" {
+			case int64:
+				// Integers of the record are int64, literals are float64
 				v = -vx
 			}
 		}
